@@ -141,10 +141,10 @@ func (d *Decimal) setString(c *Context, s string) (Condition, error) {
 	}
 	if isNaN {
 		if s != "" {
-			// We ignore these digits, but must verify them.
-			_, err := strconv.ParseUint(s, 10, 64)
-			if err != nil {
-				return 0, fmt.Errorf("parse payload: %s: %w", s, err)
+			// We ignore these digits, but must verify them. The payload may
+			// have any number of digits.
+			if !isDigits(s) {
+				return 0, fmt.Errorf("parse payload: %s: invalid syntax", s)
 			}
 		}
 		return 0, nil
